@@ -250,7 +250,7 @@ def F(x):
 
 
 # streams whose cases are ALSO run through the binary64 model (Host/DCMotorFloat.v: mstep_fl) and compared EXACTLY
-FLOAT_STREAMS = {"float-grid-100", "float-grid-1000", "float-interior", "float-chain", "float-random-start", "random-decimal", "random", "random-long"}
+FLOAT_STREAMS = {"float-over-ulp", "float-grid-100", "float-grid-1000", "float-interior", "float-chain", "float-random-start", "random-decimal", "random", "random-long"}
 
 
 def float_cases(ctx):
@@ -279,6 +279,15 @@ def float_cases(ctx):
         st0 = F(k / 1000)
         for t in (F(1.0), F(-1.0)) + ((F(3.0), -7) if thorough else ()):
             out.append(("float-grid-1000", ("motor", PINS, [("set_speed", st0), ("ramp", t, durs[k % len(durs)]), ("get_speed",)])))
+    # arguments one ulp (and 2^-40) outside [-1, 1] for every call that takes a speed: the clamp must bite on each path
+    over = [F(1.0000000000000002), F(-1.0000000000000002), F(1 + 2.0 ** -40), F(-1 - 2.0 ** -40), F(0.9999999999999999), F(-0.9999999999999999)]
+    for pre in ([], [("invert",)], [("set_speed", F(0.95))], [("invert",), ("set_speed", F(-0.97))], [("set_speed", F(-1.0))]):
+        for v in over:
+            for d in (0, 20, F(0.1)):
+                out.append(("float-over-ulp", ("motor", PINS, pre + [("run_for", d, v), ("get_speed",)])))
+                out.append(("float-over-ulp", ("motor", PINS, pre + [("ramp", v, d), ("invert",), ("get_applied_speed",)])))
+            out.append(("float-over-ulp", ("motor", PINS, pre + [("set_speed", v), ("invert",), ("get_applied_speed",)])))
+            out.append(("float-over-ulp", ("motor", PINS, pre + [("backward", v), ("invert",), ("ramp", v, 0)])))
     pool = [F(k / 100) for k in range(-100, 101)] + [F(x) for x in (1 / 3, -2 / 3, 0.1, 0.7, 1e-3, -1e-3, 0.123456789, -0.987654321)]
     lim = [F(1.0), F(-1.0), 1, -1, F(5.0), F(-5.0), 2, -2, F(1.0000000000000002), F(-1.0000000000000002)]
     for _ in range(3000 if thorough else 300):
